@@ -151,3 +151,10 @@ Print Assumptions C10_int64_nonpos.
 Print Assumptions C10_int64_cue.
 Print Assumptions C10_piece_count.
 Print Assumptions C10_int64_diverges.
+
+(* ---- idempotence (session 5; Proofs/FragmentIdem.v): a second Fragment with the same period cuts nothing and moves
+   nothing (C10_sorted + C10_no_interior_multiple + C10_untouched_list) ---- *)
+From Astisub Require Import Proofs.FragmentIdem.
+Theorem C10_idempotent : forall f l, 0 < f -> fragment f (fragment f l) = fragment f l.
+Proof. exact fragment_idem. Qed.
+Print Assumptions C10_idempotent.
